@@ -1,16 +1,17 @@
 """C08: transports fail in-flight requests once and report dead connections."""
 CLAIMED = True
 UNITS = []
-MIN_OBLIGATIONS = 150
+MIN_OBLIGATIONS = 800
 DESIGN_REF = 'DESIGN.md section 3, C08'
-TECHNIQUE = 'deductive verification with exceptional-path enumeration: every extern I/O call that may raise (or be interrupted by the gevent timeout) forks a path; z3'
-LEVEL_TEXT = ('The serial Thrift transport is verified for a raise / EOF / timeout at each of its I/O call sites (write, 4-byte prefix read, body read, close, re-open): no exception escapes the transaction, '
-              'the in-flight slot is freed on every exit, the caller\'s stack receives exactly one message or the reply greenlet is spawned (never both), a fault closes the transport and raises the fault signal unless it was already closed, '
-              'a failed re-connect after a timeout faults the transport, and a transport that does not report itself closed is connected. _OpenImpl failure closes and faults; _Fault is idempotent; Close frees the slot. '
-              'The request handed to the transaction is the 4-byte length prefix plus the payload, and a second request while one is in flight is rejected without writing.')
-LEVEL_NOTE = ('Trusted: pyvc encoding, z3; socket externs (open/close/write/readAll may raise; write/readAll cannot succeed on a closed handle; the gevent Timeout may surface at write/readAll). '
-              'I/O calls are treated as atomic with respect to other greenlets (a Close() from another greenlet during I/O kills this greenlet; not modelled). '
-              'The multiplexed transport\'s _Shutdown/_SendLoop/_RecvLoop and the ping timeout are not under contract in this version (mux part of C08 not claimed).')
+TECHNIQUE = 'deductive verification with exceptional-path enumeration (every extern I/O call that may raise or be interrupted forks a path) and rely/guarantee at the blocking calls of the mux loops; z3'
+LEVEL_TEXT = ('Serial Thrift transport: for a raise / EOF / timeout at each I/O call site (write, prefix read, body read, close, re-open) no exception escapes the transaction, the in-flight slot is freed on every exit, '
+              'the caller\'s stack receives exactly one message or the reply greenlet is spawned (never both), a fault closes the transport and raises the fault signal unless it was already closed, a failed re-connect after a timeout faults the transport, '
+              'and a transport that does not report itself closed is connected; _OpenImpl failure closes and faults; _Fault is idempotent. '
+              'Multiplexed transport: _Shutdown on an active transport sets Closed, closes the socket, raises the fault signal iff asked, posts one error into every stack of the tag map and empties it, and does nothing when already closed; '
+              '_SendLoop and _RecvLoop end in _Shutdown on any exception (error or end-of-stream at either read, error at the write); the ping timeout helper shuts the connection down unless a successful ping reply arrived; '
+              'a ping travels through the send queue (the send loop is the only writer).')
+LEVEL_NOTE = ('Trusted: pyvc encoding, z3; socket externs (open/close/write/readAll may raise; cannot succeed on a closed handle; a gevent Timeout may surface only in the serial transport\'s calls); Greenlet.kill; '
+              'other greenlets change a mux transport only through the verified operations (CONCURRENCY["Mux"]). Not proved: that the ping loop keeps running (liveness); mux _OpenImpl/_CheckInitialConnection are not yet units.')
 ASSUMPTIONS = ['socket I/O externs as listed', 'Open() is issued on a transport that has not been closed']
 TRUSTED = []
 BOUNDED = []
